@@ -7,10 +7,13 @@ package protocol
 // re-exports only, no logic of its own.
 
 import (
+	"sync/atomic"
+
 	"github.com/idena-network/idena-go/blockchain/types"
 	"github.com/idena-network/idena-go/core/mempool"
 	"github.com/idena-network/idena-go/core/state"
 	"github.com/libp2p/go-libp2p-core/network"
+	"github.com/libp2p/go-libp2p-core/peer"
 )
 
 // VerifC12Peer is the handler's per-connection object.
@@ -78,3 +81,41 @@ func (fs *fastSync) VerifC12ApplyDeferredBlocks() (uint64, error) { return fs.ap
 
 // VerifC12DropPreliminaries is fastSync.dropPreliminaries.
 func (fs *fastSync) VerifC12DropPreliminaries() { fs.dropPreliminaries() }
+
+// VerifC12Register adds the peer to the handler's peer set, as runPeer does after the handshake.
+func (h *IdenaGossipHandler) VerifC12Register(p *VerifC12Peer) error { return h.peers.Register(p) }
+
+// VerifC12PeerID is the peer's id.
+func (p *VerifC12Peer) VerifC12PeerID() peer.ID { return p.id }
+
+// VerifC12LastBatchId is the id GetBlocksRange / GetForkBlockRange gave to the batch they registered last.
+func VerifC12LastBatchId() uint32 { return atomic.LoadUint32(&batchId) }
+
+// VerifC12Batch is a registered request for a block range.
+type VerifC12Batch = batch
+
+// VerifC12Delivered takes what handle delivered into the batch so far (without waiting) and reports whether handle closed it.
+func (b *VerifC12Batch) VerifC12Delivered() (items []*VerifRangeBlock, closed bool) {
+	for {
+		select {
+		case x, ok := <-b.headers:
+			if !ok {
+				return items, true
+			}
+			items = append(items, x)
+		default:
+			return items, false
+		}
+	}
+}
+
+// VerifC12NewBatch builds a batch holding the given items and closed, i.e. what a consumer of
+// GetBlocksRange sees once handle has delivered a BlocksRange message of the peer.
+func VerifC12NewBatch(p *VerifC12Peer, from, to uint64, items []*VerifRangeBlock) *VerifC12Batch {
+	b := &batch{p: p, from: from, to: to, headers: make(chan *block, len(items)+1)}
+	for _, x := range items {
+		b.headers <- x
+	}
+	close(b.headers)
+	return b
+}
